@@ -646,9 +646,15 @@ func outcomeClass(e rapid.VerifErr) string {
 
 // record on seed, replay as recorded and pruned; "" if the property holds
 func checkReplay(prog *SX, seed uint64) (what string, nontrivial bool) {
+	what, nontrivial, _ = checkReplay2(prog, seed)
+	return
+}
+
+func checkReplay2(prog *SX, seed uint64) (what string, nontrivial bool, isD2 bool) {
 	s := rapid.VerifRandStream(seed, true)
 	d1, e1, _ := runOnce(prog, s)
 	rec := s.Rec()
+	isD2 = d2Shape(rec)
 	hasDiscard := false
 	for _, g := range rec.Groups {
 		hasDiscard = hasDiscard || g.Discard
@@ -656,27 +662,27 @@ func checkReplay(prog *SX, seed uint64) (what string, nontrivial bool) {
 	// as recorded
 	d2, e2, _ := runOnce(prog, rapid.VerifBufStream(rec.Data, false))
 	if d1 != d2 || outcomeClass(e1) != outcomeClass(e2) {
-		return fmt.Sprintf("replaying the recorded bits gives [%s] %s instead of [%s] %s", d2, outcomeClass(e2), d1, outcomeClass(e1)), hasDiscard
+		return fmt.Sprintf("replaying the recorded bits gives [%s] %s instead of [%s] %s", d2, outcomeClass(e2), d1, outcomeClass(e1)), hasDiscard, isD2
 	}
 	if e1.Kind() == "invalid" {
-		return "", false
+		return "", false, isD2
 	}
 	// same seed again
 	d3, e3, _ := runOnce(prog, rapid.VerifRandStream(seed, false))
 	if d1 != d3 || outcomeClass(e1) != outcomeClass(e3) {
-		return fmt.Sprintf("same seed gives [%s] %s then [%s] %s", d1, outcomeClass(e1), d3, outcomeClass(e3)), hasDiscard
+		return fmt.Sprintf("same seed gives [%s] %s then [%s] %s", d1, outcomeClass(e1), d3, outcomeClass(e3)), hasDiscard, isD2
 	}
 	// pruned
 	var pruned rapid.VerifRec
 	prunePanic := runTB(func() { pruned = rapid.VerifPrune(rec) })
 	if prunePanic != nil {
-		return "", hasDiscard // unfinished discarded group: shrink is never called on such a recording
+		return "", hasDiscard, isD2 // unfinished discarded group: shrink is never called on such a recording
 	}
 	d4, e4, _ := runOnce(prog, rapid.VerifBufStream(pruned.Data, false))
 	if d1 != d4 || outcomeClass(e1) != outcomeClass(e4) {
-		return fmt.Sprintf("replaying the pruned bits (%d of %d words) gives [%s] %s instead of [%s] %s", len(pruned.Data), len(rec.Data), d4, outcomeClass(e4), d1, outcomeClass(e1)), hasDiscard
+		return fmt.Sprintf("replaying the pruned bits (%d of %d words) gives [%s] %s instead of [%s] %s", len(pruned.Data), len(rec.Data), d4, outcomeClass(e4), d1, outcomeClass(e1)), hasDiscard, isD2
 	}
-	return "", hasDiscard
+	return "", hasDiscard, isD2
 }
 
 func init() {
@@ -692,13 +698,16 @@ func init() {
 				prog = r.rejectingProgram()
 			}
 			seed := r.u64()
-			what, nontrivial := checkReplay(prog, seed)
+			what, nontrivial, d2 := checkReplay2(prog, seed)
 			if nontrivial {
 				m.tag("recording-with-discarded-groups")
 			}
+			if d2 {
+				m.tag("recording-with-D2-shape")
+			}
 			m.eval(prog.String()+fmt.Sprint(seed), nontrivial)
 			if what != "" {
-				m.violate(violation{"C04", "replay", what, map[string]string{"prog": prog.String(), "seed": fmt.Sprint(seed)}})
+				m.violate(violation{"C04", "replay", what, map[string]string{"prog": prog.String(), "seed": fmt.Sprint(seed), "d2shape": fmt.Sprint(d2)}})
 			}
 		}
 		// Example(seed) is a function of the seed; history independence: interleave other work
